@@ -7,3 +7,11 @@ def lookup_faithful(chk):
 
 def merge_all_pages(chk):
     pass
+
+
+def sync_blocks(chk):
+    pass
+
+
+def consumer(chk, prefix):
+    pass
